@@ -11,7 +11,8 @@ PROP = {'engine': 'tp',
                   '(user threads and the pool\'s own internal threads) are serialised at those points only',
                   'the pool threads\' own inbox (Thread::SendMessageToInternalThread / WaitForNextMessageFromOwner) is abstracted as a FIFO with reliable '
                   'wake-up (that is property C11)'],
- 'assumptions': ['sequentially consistent interleaving of the hooked steps (no weak-memory effects)',
+ 'assumptions': ['progress theorems only: if some program calls Shutdown no program registers a client (a pool that is shut down must not be used again)',
+                 'sequentially consistent interleaving of the hooked steps (no weak-memory effects)',
                  'client discipline (IThreadPoolClient is not itself thread-safe: _threadPool is an unsynchronised member): a client that is ever '
                  '(un)registered while threads run is used by one thread only; Shutdown is called at most once and nobody registers with a pool that '
                  'has been shut down; the pool has at least one thread',
@@ -38,10 +39,16 @@ TEXT = {'design_ref': 'DESIGN.md section 4, C19 (and 3.5 for the hooks and the c
          'nothing_dropped_before_shutdown); at most one pool thread serves a client, a served client is flagged, a flagged client has no pending '
          'Messages - the MASSERTs of the dispatcher never fire (one_at_a_time); UnregisterClient reaches its final clean-up only when nothing is '
          'outstanding, no thread serves the client and everything accepted has been handled, and its wake-up is never early (unregister_waits, '
-         'unregister_wakeup_not_early).  The discipline is necessary: undisciplined_two_handlers.  PARTIAL: deadlock freedom and termination of '
-         'Shutdown are proved only as "no API step blocks on _poolLock; a user thread can be stuck only in the Wait of UnregisterClient or the join of '
-         'Shutdown" (deadlock_free_partial) plus a complete shutdown run (shutdown_example); the full statements are in a comment of Props/C19.lean '
-         'and are checked on every generated schedule by the harness (verdict done, Shutdown returns with every pool thread ended).',
+         'unregister_wakeup_not_early).  The discipline is necessary: undisciplined_two_handlers.  Progress (additionally: if some program calls Shutdown no program registers a client, and maxThreads >= 1; both shown '
+         'necessary by pool_of_size_zero_strands / register_after_shutdown_strands): deadlock_free - in every reachable configuration with an '
+         'unfinished user thread some thread can step (a waiter in UnregisterClient is registered and its client has a server or a full pool '
+         'working towards it; a pool thread being joined has ended or has its quit Message queued and can run); shutdown_rank_decreases - a ranking '
+         'function (rest of the programs and calls, 20 per pool thread still in the tables for a Shutdown call, 4 per inbox Message, 2 per batch '
+         'Message of each pool thread) strictly decreases with every step of every thread once _shuttingDown is set; shutdown_terminates - every run '
+         'from a configuration inside Shutdown has at most rank steps and can stop only when every user thread, in particular the one inside '
+         'Shutdown, has returned; shutdown_join_waits - a join returns only for an ended pool thread.  STILL OPEN (statement kept in a comment of '
+         'Props/C19.lean, checked on every generated schedule by the harness): when Shutdown reaches its final section EVERY pool thread has ended '
+         '(needs the cover invariant through the three phases of ShutdownThreadsInTableWithoutDeadlocking).',
  'note': 'Sequential consistency of the hooked steps; pool-thread inbox abstracted (C11); client discipline as documented for IThreadPoolClient.  '
          'Theorems named *_partial say in their doc comment what is missing.  Trusted: Lean kernel, statement file, scheduler + hooks, sampling '
          'correspondence.'}
